@@ -78,9 +78,15 @@ type allChain struct {
 }
 
 func newAllChain(run *ev.Run, seed string, journal *rig.Journal, genesisTime time.Time) *allChain {
+	return newAllChainAt(run, seed, journal, genesisTime, 1)
+}
+
+// newAllChainAt is newAllChain with an initial height other than 1.
+func newAllChainAt(run *ev.Run, seed string, journal *rig.Journal, genesisTime time.Time, initialHeight int64) *allChain {
 	ws := allWorkloads()
 	opts := allOptions(seed, ws, nil, genesisTime)
 	opts.NoInit = true
+	opts.InitialHeight = initialHeight
 	r := rig.New(opts)
 	r.Journal = journal
 	for _, w := range ws {
@@ -106,6 +112,9 @@ func (c *allChain) Step(dt time.Duration) *rig.BlockRecord {
 			c.run.Count("all-tx-ok", 1)
 		} else {
 			c.run.Count("all-tx-rejected", 1)
+			if os.Getenv("VERIF_DEBUG") == "rejects" && len(tx.Msgs) > 0 {
+				fmt.Fprintf(os.Stderr, "REJ %s %s\n", shortMsg(sdk.MsgTypeURL(tx.Msgs[0])), errClass(fmt.Errorf("%s", tx.Result.Log)))
+			}
 			if strings.Contains(tx.Result.Log, "account sequence mismatch") {
 				c.run.Count("all-tx-rejected:sequence-mismatch", 1)
 			}
